@@ -247,10 +247,65 @@ def run_case(acc: Acc, seed: int, idx: int) -> None:
     shutil.rmtree(root.parent, ignore_errors=True)
 
 
+def run_pair_case(acc: Acc, seed: int, idx: int) -> None:
+    """Two patterns whose templates share their BASE NAME (tw/day.zot, th/day.zot) but not their text;
+    both targets are initialised one after the other in the same process (API, or one `zorg edit a b`)."""
+    import re as _re
+    from zorg.service import templates
+
+    rng = rng_for(ID, seed, f"pair{idx}")
+    root = harness.fresh_dir("c16p") / "org"
+    root.mkdir()
+    acc.evaluations += 1
+    specs = [("work", "tw/day.zot", "WORKLOG"), ("home", "th/day.zot", "HOMELOG"), ("misc", "tm/other.zot", "MISC")]
+    rng.shuffle(specs)
+    for d, tpath, tid in specs:
+        f = root / tpath
+        f.parent.mkdir(parents=True, exist_ok=True)
+        f.write_text(template_text(tid, "date"))
+    pats = [(rf"^{d}/(?P<date>[0-9]{{8}})\.zo$", tpath, tid) for d, tpath, tid in specs]
+    day = rng.choice(["20240105", "20240229", "20231231"])
+    targets = [(f"{d}/{day}.zo", tid) for d, _t, tid in specs]
+    rng.shuffle(targets)
+    route = rng.choice(["api", "cli_edit"])
+    case = {"seed": seed, "idx": idx, "pair": True, "route": route, "targets": [t for t, _ in targets]}
+    acc.judged += 1
+    err = None
+    try:
+        if route == "api":
+            acc.count("route.api")
+            pmap = {_re.compile(rx): Path(tp) for rx, tp, _ in pats}
+            for t, _tid in targets:
+                templates.init_from_template(root, pmap, t)
+        else:
+            acc.count("route.cli_edit")
+            cfg = db.write_config(root.parent / "cfg.yml", template_pattern_map={rx: tp for rx, tp, _ in pats}, vim_exe="true", keep_alive_file=str(root.parent / "keep_alive"))
+            r = db.cli(root, "edit", *[t for t, _ in targets], config=cfg)
+            if r.rc != 0:
+                err = f"rc={r.rc} {r.err[-200:]}"
+    except Exception as e:
+        err = f"{type(e).__name__}: {e}"
+    if err:
+        acc.violation(f"[pair/{route}] initialising {case['targets']} failed: {err}", case, cls=f"template initialisation fails (pair, {route})")
+        return
+    for t, tid in targets:
+        f = root / t
+        got = f.read_text() if f.exists() else None
+        if got is not None and route == "cli_edit":
+            got = ZID_GAIN.sub(r"\1", got)
+        exp = expected_render(tid, "date", {"date": day}, "")
+        if got != exp:
+            acc.violation(f"[pair/{route}] {t}: content {got!r} is not the rendering of ITS pattern's template ({tid}): expected {exp!r}", case, cls="content is not the rendering of the matching pattern's template (templates sharing a base name)")
+    acc.sig(("pair", route, tuple(t for t, _ in targets)))
+    shutil.rmtree(root.parent, ignore_errors=True)
+
+
 def run_unit(unit: dict) -> dict:
     acc = Acc()
     for idx in range(unit["start"], unit["start"] + unit["n"]):
         run_case(acc, unit["seed"], idx)
+        if idx % 10 == 0:
+            run_pair_case(acc, unit["seed"], idx)
     acc.merge_counts(harness.COUNTERS.take())
     acc.merge_counts(contracts.take_counts())
     return acc.result()
@@ -258,7 +313,10 @@ def run_unit(unit: dict) -> dict:
 
 def replay(case: dict) -> dict:
     acc = Acc()
-    run_case(acc, case["seed"], case["idx"])
+    if case.get("pair"):
+        run_pair_case(acc, case["seed"], case["idx"])
+    else:
+        run_case(acc, case["seed"], case["idx"])
     acc.merge_counts(harness.COUNTERS.take())
     acc.merge_counts(contracts.take_counts())
     return acc.result()
